@@ -167,6 +167,48 @@ def r12_1_4(ctx, A):
             ctx.undecided(R4, 'freeze-loop', 'freeze loop not recognised', fn=cf)
 
 
+def node_copy(ctx, R):
+    """the cell a miss refreshes must afterwards hold EXACTLY the probe node: BuilderNode::clone_from copies finality, final output and
+    replaces (not extends) the transition list - a stale transition left in a recycled cell makes a later, larger node "equal" to it"""
+    lib = ctx.lib
+    cf = [f for f in lib.fn_list if f.path.endswith('::clone_from') and 'BuilderNode' in f.path and f.kind != 'Closure']
+    if not cf:
+        ctx.undecided(R, 'node-copy', 'BuilderNode has no hand-written clone_from (the derived one replaces the whole value)', fn=None)
+        return
+    f = cf[0]
+    for p in explore(f, max_visits=1, havoc=True):
+        if p.end != 'return':
+            continue
+        stored = {}
+        for (k, i, loc, st) in p.stores():
+            if loc[:1] == (1,) and len(loc) >= 2:
+                v = p.sym.rvalue_at(st['rv'], (k, i))
+                stored[loc[1]] = v
+        calls = path_calls(p, expand=False)
+        src = ('param', f.local_name(2), 2)
+
+        def from_src(v, fld):
+            return any(x[0] == 'field' and x[2] == fld and x[1] == src for x in walk(v))
+        ok_fin = 'is_final' in stored and from_src(stored['is_final'], 'is_final')
+        ok_out = 'final_output' in stored and from_src(stored['final_output'], 'final_output')
+        tcalls = [c for c in calls if isinstance(c[2], str) and arg_loc(f, c[4], 0) is not None and arg_loc(f, c[4], 0)[:2] == (1, 'trans')]
+        names = [c[2].rsplit('::', 1)[-1] for c in tcalls]
+        whole = ('clone_from' in names) or ('trans' in stored and from_src(stored['trans'], 'trans')) or any(c[2].endswith('::clone_into') and arg_loc(f, c[4], 1) is not None and arg_loc(f, c[4], 1)[:2] == (1, 'trans') for c in calls if isinstance(c[2], str))
+        cleared = any(n_ in ('clear', 'truncate') for n_ in names)
+        filled = any(n_ in ('extend', 'extend_from_slice', 'append') and any(from_src(a, 'trans') for a in c[3][1:]) for n_, c in zip(names, tcalls))
+        if whole or (cleared and filled and names.index('clear' if 'clear' in names else 'truncate') < [i for i, n_ in enumerate(names) if n_ in ('extend', 'extend_from_slice', 'append')][0]):
+            ok_tr = True
+        elif filled and not cleared:
+            ok_tr = False
+        else:
+            ok_tr = None
+        if ok_tr is None:
+            ctx.undecided(R, 'node-copy', 'how clone_from fills the transition list is not in a recognised form (%s)' % names, fn=f)
+        else:
+            ctx.check(R, ok_fin and ok_out and ok_tr, 'node-copy', 'BuilderNode::clone_from must make the cell equal to the probe: finality %s, final output %s, transitions replaced %s - a recycled cell that keeps old transitions matches nodes it does not hold' % (ok_fin, ok_out, ok_tr), fn=f)
+        break
+
+
 def r12_2(ctx):
     R = ctx.rule('R12.2', 'a hit requires an occupied cell whose node equals the probe (derived structural equality); the bucket function reads only compared fields', floor=6)
     lib = ctx.lib
@@ -624,6 +666,7 @@ def run(ctx):
         return
     ctx.step(r12_1_4, ctx, A)
     ctx.step(r12_2, ctx)
+    ctx.step(node_copy, ctx, 'R12.2')
     ctx.step(r12_3_6, ctx, A)
     ctx.step(r12_5, ctx)
     ctx.step(r12_7, ctx, A)
